@@ -14,6 +14,8 @@ import Enc.Model.Json.Own
 import Enc.Spec.Json.Cyclic
 import Enc.Driver.JsonFields
 import Enc.Driver.JsonAny
+import Enc.Driver.JsonCodec
+import Enc.Driver.JsonTyped
 import Enc.Spec.Json.RoundTrip
 import Enc.Model.Json.MapOrder
 import Enc.Model.Json.EncFloat
@@ -208,6 +210,12 @@ def handle (op : String) (args : List String) : Option (String × String × Stri
     let b ← fromHex h
     let p ← Driver.JsonAny.priorOf prior
     pure (Driver.JsonAny.cls (Driver.JsonAny.runInto m b p))
+  -- json.dectyped / json.dectypedcls <type> <flags> <hex docs>: typed targets (see Driver/JsonTyped.lean)
+  | "json.dectyped", args => Driver.JsonTyped.handle op args
+  | "json.dectypedcls", args => Driver.JsonTyped.handle op args
+  | "json.codecchoice", [d] => Driver.JsonCodec.run d
+  | "json.codectree", [d] => Driver.JsonCodec.runTree d
+  | "json.codeceq", [d] => Driver.JsonCodec.runEq d
   | "json.fields", [d] => Driver.JsonFields.run d
   | "json.fieldsnil", [d] => Driver.JsonFields.runNil d
   | "json.fieldsvis", [d] => Driver.JsonFields.runVisible d
